@@ -283,6 +283,12 @@ def run_program(item):
 
     def mk(s):
         sel = py_selector(s['sel'])
+        if s['kind'] == 'dup':
+            return DF.duplicate(s['src'], s['dst'])
+        if s['kind'] == 'addall':
+            return DF.add_field('zA', 'string', 'A')
+        if s['kind'] == 'retype':
+            return DF.set_type('zA', type='any', resources=sel)
         if s['kind'] == 'delete':
             return DF.delete_resource(sel)
         return DF.add_field('zA', 'string', 'A', resources=sel) if s['marker'] == 'A' else DF.update_resource(sel, title='B')
@@ -293,6 +299,12 @@ def run_program(item):
     gnames = [g[0] for g in got]
     if gnames != item['exp_names']:
         return dict(ok=False, why='resource list after program differs', observed=gnames)
+    if s2['kind'] == 'retype':
+        b = sorted(n for n, d, r in got if any(f['name'] == 'zA' and f['type'] == 'any' for f in d['schema']['fields']))
+        if b != sorted(item['exp_B']):
+            return dict(ok=False, why='a step on the selected resources also changed a non-selected one (shared descriptor objects)',
+                        observed=dict(B=b))
+        return dict(ok=True)
     a = sorted(n for n, d, r in got if any(f['name'] == 'zA' for f in d['schema']['fields']))
     b = sorted(n for n, d, r in got if d.get('title') == 'B')
     if a != sorted(item['exp_A']) or b != sorted(item['exp_B']):
@@ -419,6 +431,29 @@ def run():
         progs.append(dict(names=list(names), s1=dict(sel=c1['sel'], kind=c1['kind'], marker='A'),
                           s2=dict(sel=c2['sel'], kind=c2['kind'], marker='B'),
                           exp_names=n2, exp_A=[x for x in a if x in n2], exp_B=b))
+    # programs that build the package through duplicate() / a step applied to all resources, then select one of the twins
+    nal = 0
+    allnames = ['a', 'ab', 'abb', 'b', 'a.b', 'aab']
+    while nal < (200 if t == 'quick' else 2000):
+        names = r.choice([k for k in keys if len(k) == 2])
+        free = [x for x in allnames if x not in names]
+        dst = r.choice(free)
+        n1 = (names[0], dst) + tuple(names[1:])
+        cands = [c for c in by_names.get(n1, []) if c['kind'] == 'touch' and c['selected']]
+        if not cands:
+            continue
+        c2 = r.choice(cands)
+        nal += 1
+        b = [n1[p - 1] for p in c2['selected']]
+        if r.random() < 0.5:
+            progs.append(dict(names=list(names), s1=dict(sel=dict(k='none'), kind='dup', src=names[0], dst=dst, marker='A'),
+                              s2=dict(sel=c2['sel'], kind='touch', marker='A'), exp_names=list(n1), exp_A=b, exp_B=[]))
+        else:
+            cands0 = [c for c in by_names.get(names, []) if c['kind'] == 'touch' and c['selected']]
+            c0 = r.choice(cands0)
+            progs.append(dict(names=list(names), s1=dict(sel=dict(k='none'), kind='addall', marker='A'),
+                              s2=dict(sel=c0['sel'], kind='retype', marker='B'), exp_names=list(names),
+                              exp_A=list(names), exp_B=[names[p - 1] for p in c0['selected']]))
     pres = pmap(run_program, progs, chunksize=32)
     errs = harness_errors(pres)
     if errs:
